@@ -60,7 +60,8 @@ func main() {
 	if probeErr != nil {
 		res.Fatalf("variant probe: %v", probeErr)
 	}
-	res.Note("variant of the new backend found in the tree: leafFix=%v sysProbeFix=%v histOrderFix=%v", lf, sp, ho)
+	res.Note("variant found in the tree: leafFix=%v sysProbeFix=%v histOrderFix=%v migValFix=%v", lf, sp, ho, migValFix())
+	res.Hit(fmt.Sprintf("variant:migValFix=%v", migValFix()))
 	res.Hit(fmt.Sprintf("variant:histOrderFix=%v", ho))
 	res.Hit(fmt.Sprintf("variant:leafFix=%v", lf))
 	res.Hit(fmt.Sprintf("variant:sysProbeFix=%v", sp))
@@ -108,6 +109,17 @@ func main() {
 		}
 	}
 
+	if only := os.Getenv("C03_ONLY"); only != "" {
+		// debugging aid: run the scenarios whose name contains the string (never green: floors)
+		var keep []scenario
+		for _, sc := range scs {
+			if strings.Contains(sc.cfg.Name, only) {
+				keep = append(keep, sc)
+			}
+		}
+		scs = keep
+		res.Fatalf("C03_ONLY is set: partial run of %d scenarios", len(scs))
+	}
 	type found struct {
 		cfg   Config
 		steps []Step
